@@ -183,9 +183,10 @@ impl Backend {
 
         // Each dependency is an outgoing call
         for dep_name in &definition.dependencies {
-            // Resolve the dependency to its definition. A fixture that requests its own
-            // name overrides an outer fixture: the dependency is the next definition
-            // outward (as for go-to-definition and references), never the fixture itself.
+            // Resolve the dependency with the resolver every other feature uses, so that the
+            // call hierarchy names the definition go-to-definition, hover and references name.
+            // A fixture that requests its own name overrides an outer fixture: the dependency
+            // is the next definition outward, never the fixture itself.
             let resolved = if dep_name == &definition.name {
                 self.fixture_db.find_closest_definition_excluding(
                     &file_path,
@@ -194,7 +195,7 @@ impl Backend {
                 )
             } else {
                 self.fixture_db
-                    .resolve_fixture_for_file(&file_path, dep_name)
+                    .find_closest_definition(&file_path, dep_name)
             };
             if let Some(dep_def) = resolved {
                 let Some(dep_uri) = self.path_to_uri(&dep_def.file_path) else {
